@@ -74,6 +74,8 @@ def box(run, v):
     if isinstance(v, Ref):
         o = run.deref(v)
         if isinstance(o, MapO) and o.is_scalar:
+            if getattr(o, 'boxed', None) is not None:
+                return o.boxed
             return PV.pv_dict(o.keys, o.cols[''])
     if isinstance(v, SeqV) and v.kind == 'R':
         return PV.pv_rseq(v.term)
@@ -88,7 +90,9 @@ def unbox(run, term, ekind):
     if ekind == 'real':
         return Num(PV.get_real(term))
     if ekind == 'dict':
-        return run.st.alloc(MapO(PV.get_keys(term), {'': PV.get_vals(term)}, {'': 'real'}))
+        m = MapO(PV.get_keys(term), {'': PV.get_vals(term)}, {'': 'real'})
+        m.boxed = term       # re-boxing the unmodified dict gives back the same term
+        return run.st.alloc(m)
     if ekind == 'rseq':
         return SeqV('R', PV.get_rseq(term))
     if ekind == 'none':
@@ -425,7 +429,8 @@ class Lib:
             if s.kind == 'R':
                 return Num(T.rat(s.term, i))
             if s.kind == 'I':
-                return Num(iat(s.term, i))
+                from .libcalls import mk_iat
+                return Num(mk_iat(s.term, i))
             if s.kind == 'B':
                 return BoolV(T.bat(s.term, i))
         if isinstance(key, SeqV) and key.kind == 'B':
